@@ -148,7 +148,9 @@ fn main() {
         eprintln!("usage: harness run <programs-file> [--skip n] [--checkpoint file]");
         std::process::exit(2);
     }
-    std::panic::set_hook(Box::new(|_| {}));
+    if std::env::var("VERIF_PANIC_VERBOSE").is_err() {
+        std::panic::set_hook(Box::new(|_| {}));
+    }
     let mode = args[1].as_str();
     let file = &args[2];
     let mut skip = 0usize;
